@@ -68,9 +68,10 @@ static const nspell NSP[] = {
     {"%1$n", "positional", 0}, {"%Zn", "length-Z(glibc)", 0}, {"%mn", "flag-m(glibc)", 0}, {"%Ln", "length-L", 0}, {"%qn", "length-q", 0}, {"%'n", "flag-quote", 0}, {"%In", "flag-I(glibc)", 0},
 };
 #define NNSP ((int)(sizeof NSP / sizeof NSP[0]))
-static const char *PCTX[] = {"%s", "x%s", "%%d%s", "v=%%d;%s"};   /* printf contexts: %%d consumes an int before */
-static const char *SCTX[] = {"%s", "%%d%s", "%%d %s%%d", "%%3[0-9]%s", "%%d%s%%3[0-9]", "%%3[0-9]%s]"};   /* scanf contexts; 3..5: scansets before / after the directive, a literal ']' after it */
-#define NSCTX 6
+static const char *PCTX[] = {"%s", "x%s", "%%d%s", "v=%%d;%s", "%%d%5000s%s"};   /* printf contexts: %%d consumes an int before; 4: the directive lies more than 4096 characters into the format (5000 blanks) */
+#define NPCTX 5
+static const char *SCTX[] = {"%s", "%%d%s", "%%d %s%%d", "%%3[0-9]%s", "%%d%s%%3[0-9]", "%%3[0-9]%s]", "%%d%5000s%s"};   /* scanf contexts; 3..5: scansets before / after the directive, a literal ']' after it */
+#define NSCTX 7   /* 6: the directive lies more than 4096 characters into the format */
 
 enum { K_CALLS, K_C09, K_NFORMATS, K_WBUF, K_DEATH, K_NUM };
 static const char *KN[] = {"calls", "c09_decided", "n_formats", "wide_buffer_calls_checked", "worker_deaths"};
@@ -81,9 +82,11 @@ static FILE *g_tmpn, *g_tmpw, *g_in;   /* narrow tmp, wide tmp, stdin backing */
 static void vio(const char *prop, int t, const char *rule, const char *cls, const char *fmt, const char *obs) {
     char key[260], what[500]; char ef[200] = "";
     if (!want(prop)) return;
-    for (const char *p = fmt; *p && strlen(ef) < 190; p++) { if (*p == '"' || *p == '\\') sb_add(ef, sizeof ef, "\\%c", *p); else sb_add(ef, sizeof ef, "%c", *p); }
+    for (const char *p = fmt; *p && strlen(ef) < 170; p++) {
+        size_t run = strspn(p, " "); if (run >= 8) { sb_add(ef, sizeof ef, "<%zu blanks>", run); p += run - 1; continue; }   /* the far-offset contexts */
+        if (*p == '"' || *p == '\\') sb_add(ef, sizeof ef, "\\%c", *p); else sb_add(ef, sizeof ef, "%c", *p); }
     snprintf(key, sizeof key, "%s|%s|%s", TN[t], rule, cls);
-    snprintf(what, sizeof what, "%s(\"%s\"): %s: %s", TN[t], fmt, rule, obs);
+    snprintf(what, sizeof what, "%s(\"%s\"): %s: %s", TN[t], ef, rule, obs);
     snprintf(g_wit, sizeof g_wit, "{\"harness\":\"fmtw\",\"cfg\":\"%s\",\"group\":\"%s\",\"fn\":\"%s\",\"format\":\"%s\",\"obs\":\"%s\",\"replay\":\"fmtw --cfg %s --group %s\"}", g_cfg, g_group, TN[t], ef, obs, g_cfg, g_group);
     report(prop, key, what, g_wit);
 }
@@ -99,8 +102,9 @@ static void set_file(FILE *f, const char *text, int wide) {
 }
 
 static void run_printf_w(int t, const nspell *ns, int ctx, int primed) {
-    char fmt[64]; wchar_t wfmt[64]; varg_t a[4]; int na = 0; char obs[200];
-    snprintf(fmt, sizeof fmt, PCTX[ctx], ns->spell); towide(wfmt, fmt);
+    static char fmt[6200]; static wchar_t wfmt[6200]; varg_t a[4]; int na = 0; char obs[200];
+    if (ctx == 4) snprintf(fmt, sizeof fmt, PCTX[ctx], "", ns->spell); else snprintf(fmt, sizeof fmt, PCTX[ctx], ns->spell);
+    towide(wfmt, fmt);
     memset(a, 0, sizeof a);
     if (strstr(PCTX[ctx], "%%d")) a[na++].g = 42;
     if (ns->star) a[na++].g = 3;
@@ -109,7 +113,7 @@ static void run_printf_w(int t, const nspell *ns, int ctx, int primed) {
     P_wdest = dest; P_n = dmax; P_b = dmax * sizeof(wchar_t); P_wfmt = wfmt; P_stream = g_tmpw; P_ret = -99999;
     if (t == W_FWPRINTF || t == W_VFWPRINTF) set_file(g_tmpw, "", 1);
     if (primed) {   /* history: the very same format buffer first holds a harmless format and is accepted; then its content changes */
-        wchar_t keep[64]; memcpy(keep, wfmt, sizeof keep); towide(wfmt, "ok"); call_target(t, a, na); memcpy(wfmt, keep, sizeof keep);
+        static wchar_t keep[6200]; memcpy(keep, wfmt, sizeof keep); towide(wfmt, "ok"); call_target(t, a, na); memcpy(wfmt, keep, sizeof keep);
         for (size_t i = 0; i < dmax; i++) dest[i] = 0x61 + (wchar_t)(i % 26); SENT[0] = POISON;
         if (t == W_FWPRINTF || t == W_VFWPRINTF) set_file(g_tmpw, "", 1);
     }
@@ -129,8 +133,9 @@ static void run_printf_w(int t, const nspell *ns, int ctx, int primed) {
     if (t == W_WPRINTF || t == W_VWPRINTF) fflush(stdout);
 }
 static void run_scanf(int t, const nspell *ns, int ctx, int primed) {
-    char fmt[64]; wchar_t wfmt[64], win[32]; varg_t a[4]; int na = 0; char obs[200];
-    snprintf(fmt, sizeof fmt, SCTX[ctx], ns->spell); towide(wfmt, fmt);
+    static char fmt[6200]; static wchar_t wfmt[6200]; wchar_t win[32]; varg_t a[4]; int na = 0; char obs[200];
+    if (ctx == 6) snprintf(fmt, sizeof fmt, SCTX[ctx], "", ns->spell); else snprintf(fmt, sizeof fmt, SCTX[ctx], ns->spell);
+    towide(wfmt, fmt);
     const char *input = strstr(ns->spell, "%%%%") ? "12%% 34" : strstr(ns->spell, "%%") ? "12% 34" : "12 34";
     if (ctx == 0 && strstr(ns->spell, "%%")) input = strstr(ns->spell, "%%%%") ? "%% 34" : "% 34";
     towide(win, input);
@@ -145,8 +150,12 @@ static void run_scanf(int t, const nspell *ns, int ctx, int primed) {
     if (t == S_FWSCANF || t == S_VFWSCANF) { set_file(g_tmpw, input, 1); P_stream = g_tmpw; }
     if (t == S_SCANF || t == S_VSCANF || t == S_WSCANF || t == S_VWSCANF) set_stdin(input);
     (void)wide;
+    if (primed == 2) {   /* the stream has already hit end-of-file in an earlier read (flag set): the format is still to be rejected */
+        FILE *f = (t == S_FSCANF || t == S_VFSCANF) ? g_tmpn : (t == S_FWSCANF || t == S_VFWSCANF) ? g_tmpw : stdin;
+        if (t >= S_SWSCANF) { while (fgetwc(f) != WEOF) ; } else { while (fgetc(f) != EOF) ; }
+    } else
     if (primed) {   /* the same format buffers first hold a harmless format */
-        char keep[64]; wchar_t wkeep[64]; varg_t pa[1]; memcpy(keep, fmt, sizeof keep); memcpy(wkeep, wfmt, sizeof wkeep);
+        static char keep[6200]; static wchar_t wkeep[6200]; varg_t pa[1]; memcpy(keep, fmt, sizeof keep); memcpy(wkeep, wfmt, sizeof wkeep);
         strcpy(fmt, "%d"); towide(wfmt, fmt); pa[0].g = (long long)(intptr_t)&SINK[3]; pa[0].cls = 0; call_target(t, pa, 1);
         memcpy(fmt, keep, sizeof keep); memcpy(wfmt, wkeep, sizeof wkeep); SENT[0] = POISON;
         if (t == S_FSCANF || t == S_VFSCANF) set_file(g_tmpn, input, 0);
@@ -167,9 +176,9 @@ static void body(void *arg, long lo, long hi) {
     (void)arg; (void)hi; int wgroup = !strcmp(g_group, "w");
     for (int s = 0; s < NNSP; s++) {
         K[K_NFORMATS]++;
-        if (wgroup) { for (int t = W_SWPRINTF; t <= W_VWPRINTF; t++) for (int c = 0; c < 4; c++) { long id = s * 1000 + t * 10 + c; if (id < lo) continue; g_shm->cur = id; run_printf_w(t, &NSP[s], c, 0); run_printf_w(t, &NSP[s], c, 1); }
-                      for (int t = S_SWSCANF; t <= S_VWSCANF; t++) for (int c = 0; c < NSCTX; c++) { long id = s * 1000 + t * 10 + c; if (id < lo) continue; g_shm->cur = id; run_scanf(t, &NSP[s], c, 0); run_scanf(t, &NSP[s], c, 1); } }
-        else for (int t = S_SSCANF; t <= S_VSCANF; t++) for (int c = 0; c < NSCTX; c++) { long id = s * 1000 + t * 10 + c; if (id < lo) continue; g_shm->cur = id; run_scanf(t, &NSP[s], c, 0); run_scanf(t, &NSP[s], c, 1); }
+        if (wgroup) { for (int t = W_SWPRINTF; t <= W_VWPRINTF; t++) for (int c = 0; c < NPCTX; c++) { long id = s * 1000 + t * 10 + c; if (id < lo) continue; g_shm->cur = id; run_printf_w(t, &NSP[s], c, 0); run_printf_w(t, &NSP[s], c, 1); }
+                      for (int t = S_SWSCANF; t <= S_VWSCANF; t++) for (int c = 0; c < NSCTX; c++) { long id = s * 1000 + t * 10 + c; if (id < lo) continue; g_shm->cur = id; run_scanf(t, &NSP[s], c, 0); run_scanf(t, &NSP[s], c, 1); if (t != S_SSCANF && t != S_VSSCANF && t != S_SWSCANF && t != S_VSWSCANF && c < 2) run_scanf(t, &NSP[s], c, 2); } }
+        else for (int t = S_SSCANF; t <= S_VSCANF; t++) for (int c = 0; c < NSCTX; c++) { long id = s * 1000 + t * 10 + c; if (id < lo) continue; g_shm->cur = id; run_scanf(t, &NSP[s], c, 0); run_scanf(t, &NSP[s], c, 1); if (t != S_SSCANF && t != S_VSSCANF && t != S_SWSCANF && t != S_VSWSCANF && c < 2) run_scanf(t, &NSP[s], c, 2); }
     }
     for (int i = 0; i < K_NUM; i++) __sync_fetch_and_add(&CTR(i), K[i]); distinct_emit();
 }
